@@ -33,8 +33,10 @@ MANIFEST_ENTRY = {
 
 
 def run(ctx) -> None:
-    ctx.rule = ("schedules of 2-3 committers at S3-request/storage-operation granularity on S3StorageBackend over an in-memory "
-                "conditional-write S3 with a lock granting everyone; bounded-preemption enumeration + random; distinct = executed schedule")
+    ctx.rule = ("schedules of 2-3 committers at storage-operation granularity on S3StorageBackend over an in-memory "
+                "conditional-write S3, (a) with a lock granting everyone, (b) with the real S3LockProvider (one attempt per "
+                "scheduler step) and a clock actor jumping past the 60 s lease at every point of a commit (lease lapse, takeover, "
+                "stale holder resuming); bounded-preemption enumeration + directed + random; distinct = executed schedule")
     ctx.trusted_base += ["harness/lib/sched.py, protocol.py, mems3.py (strongly consistent in-memory S3 with If-Match / If-None-Match)"]
     ctx.assumptions += ["conditional PUT is atomic and the store is strongly consistent (property premise)"]
     ctx.proofs(THEOREMS)
@@ -46,6 +48,21 @@ def run(ctx) -> None:
             case = {"ops": ops, "clock": clock, "topology": "separate", "backend": "s3cas", "lock": "grant_all"}
             for dev, res in c01.explore(ctx, case, 2 if quick else 3, 45 if quick else 500):
                 runs.append((case, dev, res))
+    # the real conditional-write lease lock: a clock actor jumps 61 s (lease 60 s), so that a paused holder's lock lapses
+    # and is taken over; directed schedules put the jump + the other committer's whole commit at every point of A0's commit
+    for ops in c01.OPSETS[:2] if quick else c01.OPSETS[:4]:
+        case = {"ops": ops, "clock": "tick", "topology": "separate", "backend": "s3cas", "lock": "real",
+                "clock_actor": {"jumps": 1, "ms": 61000}}
+        base = P.run_case(ctx.scratch, c01._fix_case(case), c01.dev_chooser({}), tag="c08l")
+        n0 = sum(1 for a in base.schedule if a == "A0")
+        for i in range(1, n0 + 1):
+            dev = ((i, "K"), (i + 1, "K"), (i + 2, "A1"))
+            res = P.run_case(ctx.scratch, c01._fix_case(case), c01.dev_chooser(dict(dev)), tag="c08l")
+            runs.append((case, dev, res))
+        for dev, res in c01.explore(ctx, case, 2, 15 if quick else 300):
+            runs.append((case, dev, res))
+    ctx.stats["lease_takeovers_observed"] = sum(1 for c, _d, r in runs if c.get("lock") == "real"
+                                                for e in r.log if e["op"] == "Fence" and e["result"] is False)
     import random as _r
     for i in range(10 if quick else 300):
         ops = c01.OPSETS3[i % len(c01.OPSETS3)]
